@@ -325,3 +325,16 @@ theorem applyEff_BeforeAllowedBidderUpdated (a0 : Int) (a1 : Acc) (a2 : Int) (c 
   rfl
 
 end Fundraising
+
+/-! non-vacuity: three registered listeners, listener 1 vetoes `BeforeAuctionCanceled`: listeners 0
+    and 1 are called (in that order, with the operation's values), listener 2 is not, the error is returned -/
+namespace Fundraising
+open Fundraising.Gen Fundraising.Go
+
+example : Gen.Keeper_BeforeAuctionCanceled 4 9 (some [0, 1, 2]) (fun x => decide (x = 1)) =
+    (true, [⟨.beforeAuctionCanceled, [.nat 0, .int 4, .nat 9]⟩, ⟨.beforeAuctionCanceled, [.nat 1, .int 4, .nat 9]⟩]) := by
+  rw [tie_Keeper_BeforeAuctionCanceled]; rfl
+example : (Gen.Keeper_BeforeAuctionCanceled 4 9 none (fun _ => true)) = (false, []) := by
+  rw [tie_Keeper_BeforeAuctionCanceled]; rfl
+
+end Fundraising
